@@ -53,7 +53,9 @@ SPEC = dict(
              "HandleConnectionClosed against the model inside Coq; ~50 scenarios on two REAL hubs in one process (real TLS and "
              "websockets over loopback, fake mDNS, harness TCP proxies, dial back-off scaled to 0-1 s): SKI order x pairing "
              "before/after visibility x simultaneous or staggered x disturbance lists (DisconnectSKI by either side, cutting "
-             "the TCP connections, restarting a hub, simultaneous mDNS events, a close while delayed dials are pending); at "
+             "the TCP connections, restarting a hub, simultaneous mDNS events, a close while delayed dials are pending, and compound disturbances inside the 500 ms "
+             "window of a graceful close: DisconnectSKI on both hubs 0/50/150/400 ms apart in both orders, DisconnectSKI then a "
+             "transport cut 50-400 ms later, a cut then DisconnectSKI); at "
              "quiescence (polled) the live TCP connections through the proxies, both registries, completion, live set-up "
              "connections and a SPINE payload in both directions are recorded and the model's monitor decides inside Coq; the "
              "source structure the model's configuration states (registration through registerCheckedConnection, the "
